@@ -230,6 +230,38 @@ RAISERS.update({
 })
 
 
+def _builtin_exception_raisers():
+    """every builtin Exception class (not BaseException-only ones), raised with a short text"""
+    import builtins
+
+    out = {}
+    for name in sorted(dir(builtins)):
+        cls = getattr(builtins, name)
+        if isinstance(cls, type) and issubclass(cls, Exception) and not issubclass(cls, Warning) and name != "ExceptionGroup":
+            def mk(cls=cls):
+                try:
+                    if issubclass(cls, UnicodeDecodeError):
+                        return cls("utf-8", b"\xff", 0, 1, "bad")
+                    if issubclass(cls, UnicodeEncodeError):
+                        return cls("ascii", "\xe9", 0, 1, "bad")
+                    if issubclass(cls, UnicodeTranslateError):
+                        return cls("\xe9", 0, 1, "bad")
+                    return cls("x")
+                except Exception:
+                    return RuntimeError("could not build " + cls.__name__)
+            out["builtin/" + name] = _raise(mk)
+    return out
+
+
+RAISERS.update(_builtin_exception_raisers())
+
+# text that looks like the syntax being produced or parsed (JSON-RPC lines, JSON tokens, SSE fields)
+SYNTAX_TEXT = ['{"jsonrpc":"2.0","id":1,"result":{}}', '{"jsonrpc":"2.0","id":1,"error":{"code":-32601,"message":"x"}}', "[NaN]", ":Infinity,",
+               "values=[1.0, NaN]", '\n{"id":1}', "data: x", "event: message", "id: 1", "retry: 1", ":", "{}", "[]", "null", "true",
+               '"', '\\"', "}{", '{"a":{"a":{"a":1}}}', "a\n\ndata: y"]
+RAISERS.update({"syntax/%d" % k: _raise(lambda t=t: ValueError(t)) for k, t in enumerate(SYNTAX_TEXT)})
+
+
 def _deep_list(n):
     x = ["leaf"]
     for _ in range(n):
@@ -258,6 +290,9 @@ RETURNS = {
     "handler": "h", "tools/call": "t", "ping": "p", "initialize": "i", "name": "n", "arguments": "a", "-32602": "c",
     "%s": "pct", "{0}": "brace", "a\nb": "nl", "\u2028": "ls", " ": "space",
 }
+RETURNS.update({t: "named like syntax" for t in SYNTAX_TEXT[:8]})
+RETURNS["ret/syntax-texts"] = list(SYNTAX_TEXT)
+RETURNS["ret/syntax-dict"] = {t: t for t in SYNTAX_TEXT}
 for _n, _v in RETURNS.items():
     TOOLS[_n] = (_returning(_v), "returns")
 TOOLS["ret/suspends"] = (_returning("late", suspend=True), "returns")
@@ -292,7 +327,17 @@ OVERRIDES = {"ping": "answers", "tools/call": "raises", "notifications/initializ
 
 
 def custom_table(variant=None):
+    if variant == "empty":
+        return {}
     return dict(CUSTOM, **OVERRIDES) if variant == "overrides" else CUSTOM
+
+
+def tools_table(variant=None):
+    return {} if variant == "empty" else TOOLS
+
+
+def resources_table(variant=None):
+    return {} if variant == "empty" else RESOURCES
 
 
 def _tool_raising(f):
@@ -349,7 +394,14 @@ def raise_shape(kind, name):
 def build_server(variant=None):
     from chuk_mcp.server.server import MCPServer
 
-    srv = MCPServer("verif", "1.0")
+    if variant == "empty":
+        return MCPServer("verif-empty")  # nothing registered: empty registries
+    if variant == "overrides":
+        from chuk_mcp.protocol.types.capabilities import ServerCapabilities
+
+        srv = MCPServer("verif", "2.0", capabilities=ServerCapabilities(tools={"listChanged": True}, resources={"subscribe": True}))
+    else:
+        srv = MCPServer("verif", "1.0")
     for name, (fn, _) in TOOLS.items():
         srv.register_tool(name, fn, {"type": "object", "properties": {"text": {"type": "string"}}}, "t")
     for uri, (fn, _) in RESOURCES.items():
@@ -509,7 +561,7 @@ def make_envelope(msg, env):
     return J.JSONRPCMessage.model_validate(dict(msg))
 
 
-def dispatch_one(srv, msg, env="legacy", sid=None, cache=None, reuse=False):
+async def adispatch(srv, msg, env="legacy", sid=None, cache=None, reuse=False):
     """one message through srv.protocol_handler.handle_message(envelope, sid) -> observation"""
     obs = {"parse": "ok", "raised": None, "pair": None, "resp": None, "sid": False}
     key = json.dumps([msg, env], sort_keys=True, default=str)
@@ -530,7 +582,7 @@ def dispatch_one(srv, msg, env="legacy", sid=None, cache=None, reuse=False):
     obs["seen_method"] = getattr(m, "method", None)
     arg = [m, m] if env == "list" else m
     try:
-        ret = _loop().run_until_complete(srv.protocol_handler.handle_message(arg, sid))
+        ret = await srv.protocol_handler.handle_message(arg, sid)
     except Exception as ex:
         obs["raised"] = type(ex).__name__
         return obs
@@ -559,10 +611,64 @@ def dispatch_one(srv, msg, env="legacy", sid=None, cache=None, reuse=False):
     return obs
 
 
+def dispatch_one(srv, msg, env="legacy", sid=None, cache=None, reuse=False):
+    return _loop().run_until_complete(adispatch(srv, msg, env, sid, cache, reuse))
+
+
+def debug_logging():
+    """Run the code as a host application with logging configured at DEBUG would: every logging.debug(...) /
+    isEnabledFor(DEBUG) branch is live and every log message is really formatted.  Records go to a NullHandler.
+    Returns the function that restores the previous state."""
+    import logging
+
+    root = logging.getLogger()
+    prev_disable, prev_level, prev_handlers = root.manager.disable, root.level, list(root.handlers)
+    root.handlers[:] = [logging.NullHandler()]
+    root.setLevel(logging.DEBUG)
+    logging.disable(logging.NOTSET)
+
+    def restore():
+        logging.disable(prev_disable)
+        root.setLevel(prev_level)
+        root.handlers[:] = prev_handlers
+    return restore
+
+
 def run_case(case):
-    """single message: {"msg", "env"?, "sid"?, "server"?}   sequence on a fresh server:
-    {"seq": [{"msg","env"?,"sid"?,"reuse"?}, …], "server"?}  (sid "$last" = the session id the last initialize returned)"""
+    """single message: {"msg", "env"?, "sid"?, "server"?, "debug"?}
+    sequence on a fresh server: {"seq": [{"msg","env"?,"sid"?,"reuse"?}, …], "server"?, "debug"?}
+    CONCURRENT messages: {"conc": [{"msg","env"?,"sid"?,"on"?}, …], "servers": [variant, …]} — all dispatched at once
+    (asyncio.gather) on fresh servers; step.on = index into servers (default 0): handlers that suspend overlap.
+    sid "$last" = the session id the last initialize returned.  debug: the root logger is at DEBUG during the case."""
+    restore = debug_logging() if case.get("debug") else None
+    try:
+        return _run_case(case)
+    finally:
+        if restore:
+            restore()
+
+
+def _run_case(case):
     variant = case.get("server")
+    if "conc" in case:
+        servers = [server(v, fresh=True) for v in case.get("servers", [variant])]
+        # a second instance of everything is alive next to the ones under test
+        bystander = server(variant, fresh=True)
+
+        async def go():
+            return await asyncio.gather(*[
+                adispatch(servers[st.get("on", 0) % len(servers)], st["msg"], st.get("env", "legacy"), st.get("sid"))
+                for st in case["conc"]], return_exceptions=True)
+
+        outs = _loop().run_until_complete(go())
+        steps = []
+        for o in outs:
+            if isinstance(o, BaseException):
+                o = {"parse": "ok", "raised": type(o).__name__, "pair": None, "resp": None, "sid": False}
+            o.pop("sid_value", None)
+            steps.append(o)
+        del bystander
+        return {"steps": steps}
     if "seq" not in case:
         o = dispatch_one(server(variant), case["msg"], case.get("env", "legacy"), case.get("sid"))
         o.pop("sid_value", None)
@@ -605,18 +711,18 @@ def args_ok(params):
 
 def server_spec(variant=None):
     return {
-        "tools": {k: v[1] for k, v in TOOLS.items()},
-        "resources": {k: v[1] for k, v in RESOURCES.items()},
+        "tools": {k: v[1] for k, v in tools_table(variant).items()},
+        "resources": {k: v[1] for k, v in resources_table(variant).items()},
         "custom": {k: MODEL_CBEH.get(v, v) for k, v in custom_table(variant).items()},
         "nextSid": "sid",
     }
 
 
-SERVER_SPECS = {None: server_spec(None), "overrides": server_spec("overrides")}
+SERVER_SPECS = {None: server_spec(None), "overrides": server_spec("overrides"), "empty": server_spec("empty")}
 
 
 def model_line(case, obs):
-    if obs["parse"] != "ok" or case.get("env") == "list" or "seq" in case:
+    if obs["parse"] != "ok" or case.get("env") == "list" or "seq" in case or "conc" in case:
         return None
     sid = obs.get("seen_id")
     if sid is None:
